@@ -31,7 +31,9 @@ const modPath = "x.io/test"
 var predeclared = []string{"bool", "int", "int8", "int16", "int32", "int64", "uint", "uint8", "uint16", "uint32", "uint64", "uintptr",
 	"float32", "float64", "complex64", "complex128", "string", "byte", "rune"}
 var special = []string{"error", "any"}
-var named = []string{"L", "dep.T", "otherdep.T", "LG[int]", "dep.G[int]", "dep.G[dep.T]", "dep.G2[string, otherdep.T]", "dep.G[dep.G[int]]", "LG[L]"}
+var named = []string{"L", "dep.T", "otherdep.T", "LG[int]", "dep.G[int]", "dep.G[dep.T]", "dep.G2[string, otherdep.T]", "dep.G[dep.G[int]]", "LG[L]",
+	// a package whose last path element contains a dot (gopkg.in/yaml.v3 style), alone and as a type argument
+	"yaml.Node", "dep.G[yaml.Node]", "LG[yaml.Node]", "dep.G2[yaml.Node, dep.T]"}
 var mapKeys = []string{"string", "int", "L", "dep.T", "[2]int", "dep.K"}
 
 func atoms(full bool) []string {
@@ -86,18 +88,19 @@ func expressions(c *core.Ctx) []string {
 
 func baseModule(exprs []string) pipe.Tree {
 	var b strings.Builder
-	b.WriteString("package src\n\nimport (\n\t\"" + modPath + "/dep\"\n\totherdep \"" + modPath + "/other/dep\"\n)\n\nvar _ dep.T\nvar _ otherdep.T\n\ntype L struct{ X int }\n\ntype LG[X any] struct{ V X }\n\n")
+	b.WriteString("package src\n\nimport (\n\t\"" + modPath + "/dep\"\n\totherdep \"" + modPath + "/other/dep\"\n\tyaml \"" + modPath + "/third/yaml.v3\"\n)\n\nvar _ dep.T\nvar _ otherdep.T\nvar _ yaml.Node\n\ntype L struct{ X int }\n\ntype LG[X any] struct{ V X }\n\n")
 	for i, e := range exprs {
 		fmt.Fprintf(&b, "var V_%d %s\n", i, e)
 	}
 	return pipe.Tree{
-		"go.mod":           pipe.GoMod(modPath, "1.24"),
-		"dep/dep.go":       "package dep\n\ntype T struct{ A int }\n\ntype K string\n\ntype G[X any] struct{ V X }\n\ntype G2[X any, Y any] struct {\n\tV X\n\tW Y\n}\n",
-		"other/dep/dep.go": "package dep\n\ntype T struct{ B string }\n",
-		"z/dep/dep.go":     "package dep\n\ntype Z int\n",
-		"src/src.go":       b.String(),
-		"tgt/tgt.go":       "package tgt\n",
-		"tgt2/tgt2.go":     "package tgt2\n",
+		"go.mod":             pipe.GoMod(modPath, "1.24"),
+		"dep/dep.go":         "package dep\n\ntype T struct{ A int }\n\ntype K string\n\ntype G[X any] struct{ V X }\n\ntype G2[X any, Y any] struct {\n\tV X\n\tW Y\n}\n",
+		"other/dep/dep.go":   "package dep\n\ntype T struct{ B string }\n",
+		"z/dep/dep.go":       "package dep\n\ntype Z int\n",
+		"third/yaml.v3/y.go": "package yaml\n\ntype Node struct{ Kind int }\n",
+		"src/src.go":         b.String(),
+		"tgt/tgt.go":         "package tgt\n",
+		"tgt2/tgt2.go":       "package tgt2\n",
 	}
 }
 
@@ -297,6 +300,28 @@ func checkExprs(c *core.Ctx, exprs []string, withReflect bool) {
 		}
 	}
 	for _, j := range jobs {
+		// the registered imports must be packages that exist; a made-up path would also keep the whole
+		// target from loading, so it is reported here and taken out together with the texts that use it
+		for p, name := range j.r.imports {
+			if u.Package(p) != nil {
+				continue
+			}
+			delete(j.r.imports, p)
+			reported := false
+			for i, t := range j.r.texts {
+				if strings.Contains(t, name+".") {
+					if !reported {
+						reported = true
+						c.Fail("C11-reflect-escaped-type-argument-path", Case{Expr: exprs[i], Target: targets[j.ti].name, From: j.from}, "type %q rendered (from %s, target: %s) as %q with the import %s %q, which is not a package", exprs[i], j.from, targets[j.ti].name, t, name, p)
+					}
+					j.r.texts[i] = ""
+					j.r.panics[i] = "skipped: uses an import that does not exist"
+				}
+			}
+			if !reported {
+				c.Fail("", Case{Expr: exprs[0], Target: targets[j.ti].name, From: j.from}, "the tracker of target %s (from %s) registered the import %s %q, which is not a package", targets[j.ti].name, j.from, name, p)
+			}
+		}
 		if err := writeTarget(dir, j.ti, j.r, j.prefix, j.ti == 2); err != nil {
 			c.Internal("%v", err)
 			return
@@ -320,6 +345,9 @@ func checkExprs(c *core.Ctx, exprs []string, withReflect bool) {
 			c.State(fmt.Sprintf("%s|%d|%v", j.from, j.ti, strings.Count(e, "[")+strings.Count(e, "*")))
 			if strings.ContainsAny(e, "*[ ") {
 				c.Nontrivial(fmt.Sprint(e, j.ti, j.from))
+			}
+			if strings.HasPrefix(j.r.panics[i], "skipped:") {
+				continue // reported above
 			}
 			if j.r.panics[i] != "" {
 				c.Fail(classify(e, ""), cs, "rendering %q (from %s, target: %s) panicked: %s", e, j.from, targets[j.ti].name, j.r.panics[i])
@@ -354,7 +382,7 @@ func checkExprs(c *core.Ctx, exprs []string, withReflect bool) {
 func expectedPaths(e, target string) []string {
 	set := map[string]bool{}
 	// qualifiers as written in package src
-	for q, p := range map[string]string{"otherdep.": modPath + "/other/dep", "dep.": modPath + "/dep"} {
+	for q, p := range map[string]string{"otherdep.": modPath + "/other/dep", "dep.": modPath + "/dep", "yaml.": modPath + "/third/yaml.v3"} {
 		rest := e
 		if q == "dep." {
 			rest = strings.ReplaceAll(e, "otherdep.", "")
@@ -365,7 +393,7 @@ func expectedPaths(e, target string) []string {
 	}
 	// local types of src: L, LG[...]
 	if target != modPath+"/src" {
-		stripped := strings.NewReplacer("otherdep.", "", "dep.", "").Replace(e)
+		stripped := strings.NewReplacer("otherdep.", "", "dep.", "", "yaml.", "").Replace(e)
 		for _, tok := range strings.FieldsFunc(stripped, func(r rune) bool {
 			return !(r == '_' || r >= 'A' && r <= 'Z' || r >= 'a' && r <= 'z' || r >= '0' && r <= '9')
 		}) {
@@ -391,7 +419,7 @@ func classify(expr, text string) string {
 // reflect.TypeOf of every expression.
 func renderReflect(dir string, exprs []string, ti int) (*rendering, error) {
 	var b strings.Builder
-	b.WriteString("package main\n\nimport (\n\t\"bytes\"\n\t\"encoding/json\"\n\t\"fmt\"\n\t\"os\"\n\t\"reflect\"\n\n\t\"github.com/octohelm/gengo/pkg/gengo\"\n\t\"github.com/octohelm/gengo/pkg/gengo/snippet\"\n\t\"github.com/octohelm/gengo/pkg/namer\"\n\tgengotypes \"github.com/octohelm/gengo/pkg/types\"\n\t. \"" + modPath + "/src\"\n\t\"" + modPath + "/dep\"\n\totherdep \"" + modPath + "/other/dep\"\n)\n\nvar _ dep.T\nvar _ otherdep.T\nvar _ L\n\n")
+	b.WriteString("package main\n\nimport (\n\t\"bytes\"\n\t\"encoding/json\"\n\t\"fmt\"\n\t\"os\"\n\t\"reflect\"\n\n\t\"github.com/octohelm/gengo/pkg/gengo\"\n\t\"github.com/octohelm/gengo/pkg/gengo/snippet\"\n\t\"github.com/octohelm/gengo/pkg/namer\"\n\tgengotypes \"github.com/octohelm/gengo/pkg/types\"\n\t. \"" + modPath + "/src\"\n\t\"" + modPath + "/dep\"\n\totherdep \"" + modPath + "/other/dep\"\n\tyaml \"" + modPath + "/third/yaml.v3\"\n)\n\nvar _ dep.T\nvar _ otherdep.T\nvar _ yaml.Node\nvar _ L\n\n")
 	b.WriteString("var types = []reflect.Type{\n")
 	for _, e := range exprs {
 		fmt.Fprintf(&b, "\treflect.TypeOf((*%s)(nil)).Elem(),\n", e)
@@ -474,7 +502,7 @@ func replay(c *core.Ctx, raw json.RawMessage) {
 func init() {
 	core.Register(&core.Prop{
 		ID: "C11", Level: "model_checking", Run: run, Replay: replay, Shards: 8,
-		Rule: "every type expression of the grammar: depth 0 = all predeclared types, error, any, local named, foreign named, foreign with a clashing last path segment, generic instantiations with basic/named/nested arguments; depth 1 = every constructor (*, [], [3], chan, map with 6 key types, struct with tagged fields, struct with embedded value and pointer) over all atoms; depth 2 over a reduced atom set (thorough: full depth 2 and depth 3 over a further reduced base); each rendered from its go/types type AND from its reflect type (compiled helper program) into 3 targets (own package, another package, another package whose tracker already holds a clashing name); the texts are written as var declarations with the tracker's imports, the module is type-checked again and types.Identical(original, rendered) is required; every target is rendered a second time in the same process with a fresh tracker and namer and must give the same texts and imports. Non-trivial = composite expressions; states = (source, target, nesting)",
+		Rule: "every type expression of the grammar: depth 0 = all predeclared types, error, any, local named, foreign named, foreign with a clashing last path segment, foreign from a package whose last path element contains a dot (alone and as a type argument; module mode rejects non-ASCII import paths), generic instantiations with basic/named/nested arguments; depth 1 = every constructor (*, [], [3], chan, map with 6 key types, struct with tagged fields, struct with embedded value and pointer) over all atoms; depth 2 over a reduced atom set (thorough: full depth 2 and depth 3 over a further reduced base); each rendered from its go/types type AND from its reflect type (compiled helper program) into 3 targets (own package, another package, another package whose tracker already holds a clashing name); the texts are written as var declarations with the tracker's imports, the module is type-checked again and types.Identical(original, rendered) is required; every target is rendered a second time in the same process with a fresh tracker and namer and must give the same texts and imports. Non-trivial = composite expressions; states = (source, target, nesting)",
 		Assumptions: []string{
 			"outside the grammar: generic arguments that are pointers/maps/slices, receive/send-only channels, non-empty interface literals, func types",
 		},
